@@ -450,6 +450,95 @@ def _class_table(h5_tree, ds_tree) -> tuple[dict[str, bool], dict[str, bool]]:
     return t, c
 
 
+_MUTATORS = {"append", "extend", "insert", "pop", "popitem", "clear", "update", "setdefault", "add", "discard", "remove", "sort",
+             "reverse", "__setitem__", "__delitem__"}
+_DATASET_CLASSES = {DS: ["FakeMRIBlobsDataset", "FastMRIDataset", "CMRxReconDataset", "CalgaryCampinasDataset", "ConcatDataset",
+                         "SheppLoganDataset", "SheppLoganProtonDataset", "SheppLoganT1Dataset", "SheppLoganT2Dataset"],
+                    H5: ["H5SliceData"], FK: ["FakeMRIData"]}
+
+
+def _is_mutable_value(v: ast.AST | None) -> bool:
+    if v is None:
+        return False
+    if isinstance(v, (ast.Dict, ast.List, ast.Set, ast.ListComp, ast.DictComp, ast.SetComp)):
+        return True
+    return isinstance(v, ast.Call) and _txt(v.func) in ("dict", "list", "set", "defaultdict", "collections.defaultdict",
+                                                        "OrderedDict", "collections.OrderedDict", "bytearray")
+
+
+def _written(scope: ast.AST, owner_names: set[str], attr: str) -> bool:
+    """is `<owner>.<attr>` (owner in self/cls/ClassName/type(self)) assigned to, item-assigned, deleted from, augmented or
+    mutated through a mutating method anywhere in `scope`?"""
+    def is_attr(n):
+        return isinstance(n, ast.Attribute) and n.attr == attr and _txt(n.value) in owner_names
+
+    for n in ast.walk(scope):
+        targets = []
+        if isinstance(n, ast.Assign):
+            targets = n.targets
+        elif isinstance(n, (ast.AugAssign, ast.AnnAssign)):
+            targets = [n.target]
+        elif isinstance(n, ast.Delete):
+            targets = n.targets
+        for t in targets:
+            for sub in ast.walk(t):
+                if is_attr(sub) or (isinstance(sub, ast.Subscript) and is_attr(sub.value)):
+                    return True
+        if isinstance(n, ast.Call) and isinstance(n.func, ast.Attribute) and n.func.attr in _MUTATORS and is_attr(n.func.value):
+            return True
+    return False
+
+
+def _shared_state_table(trees: dict[str, ast.Module]) -> dict[str, bool]:
+    """no state is shared between dataset objects: no class-level mutable attribute that is written through an instance or the
+    class, no memoising decorator, no module-level mutable global that a function writes"""
+    t: dict[str, bool] = {}
+    for file, classes in _DATASET_CLASSES.items():
+        tree = trees[file]
+        short = file.rsplit("/", 1)[1][:-3]
+        for cname in classes:
+            cls = next((n for n in tree.body if isinstance(n, ast.ClassDef) and n.name == cname), None)
+            if cls is None:
+                raise Untranslatable(f"class {cname} not found")
+            owners = {"self", "cls", cname, "type(self)", "self.__class__"}
+            shared = []
+            for st in cls.body:
+                if isinstance(st, ast.Assign):
+                    names, val = [x.id for x in st.targets if isinstance(x, ast.Name)], st.value
+                elif isinstance(st, ast.AnnAssign) and isinstance(st.target, ast.Name):
+                    names, val = [st.target.id], st.value
+                else:
+                    continue
+                for nm in names:
+                    # a class attribute is shared state when it is mutable and written somewhere, or rebound through the class
+                    if (_is_mutable_value(val) and _written(tree, owners, nm)) or _written(tree, owners - {"self"}, nm):
+                        shared.append(nm)
+            t[f"{cname}_has_no_written_class_level_state"] = not shared
+            deco = [_txt(d) for f in ast.walk(cls) if isinstance(f, ast.FunctionDef) for d in f.decorator_list]
+            t[f"{cname}_has_no_memoised_method"] = not any("cache" in d for d in deco)
+        # module-level mutable globals written by functions
+        bad = []
+        for st in tree.body:
+            if isinstance(st, (ast.Assign, ast.AnnAssign)):
+                tg = st.targets if isinstance(st, ast.Assign) else [st.target]
+                for x in tg:
+                    if isinstance(x, ast.Name) and x.id != "__all__":
+                        for fn in [n for n in ast.walk(tree) if isinstance(n, ast.FunctionDef)]:
+                            for n in ast.walk(fn):
+                                if isinstance(n, ast.Global) and x.id in n.names:
+                                    bad.append(x.id)
+                                if _is_mutable_value(st.value):
+                                    if isinstance(n, ast.Subscript) and isinstance(n.ctx, (ast.Store, ast.Del)) and _txt(n.value) == x.id:
+                                        bad.append(x.id)
+                                    if isinstance(n, ast.Call) and isinstance(n.func, ast.Attribute) and n.func.attr in _MUTATORS \
+                                            and _txt(n.func.value) == x.id:
+                                        bad.append(x.id)
+        t[f"{short}_has_no_written_module_level_state"] = not bad
+        mdeco = [_txt(d) for f in tree.body if isinstance(f, ast.FunctionDef) for d in f.decorator_list]
+        t[f"{short}_has_no_memoised_function"] = not any("cache" in d for d in mdeco)
+    return t
+
+
 def _lean_bool(b: bool) -> str:
     return "true" if b else "false"
 
@@ -508,6 +597,9 @@ def _c12_extra():
     else:
         out.append("/-- what FastMRIDataset / CalgaryCampinasDataset hand to H5SliceData; H5SliceData item plumbing -/\n" + _emit_list("classTable", cls[0]))
         out.append("/-- structure of CMRxReconDataset.parse_filenames_data / get_slice_data -/\n" + _emit_list("cmrTable", cls[1]))
+    sst = table("sharedStateTable", lambda: _shared_state_table({DS: ds, H5: h5, FK: fk}), {"skipped": True})
+    out.append("/-- no state shared between dataset objects (class-level mutable attributes, memoisation, module globals) -/\n"
+               + _emit_list("sharedStateTable", sst))
     ft = table("fakeTable", lambda: _fake_table(ds, fk, sn), None)
     if ft is None:
         out.append("/-- SKIPPED -/\ndef fakeTable : Dataset.SeedTable := Dataset.fakeTableCurrent\n")
